@@ -77,6 +77,10 @@ def templates(tier, seed):
                             continue
                         tid = f"T1/{kind}/{cname}/ina={int(ina)}/N={N}" + (f"/pat={O.STR_PATTERNS.index(pat)}" if pat else "")
                         ts.append(Template(tid, t_series, (kind, cname, N, ina, pat), twin="verdict" if N > 0 else None))
+    # nullable integer extension dtype: kind 'i' like int64, but cells can be <NA>
+    for cname in ("ge", "isin", "in_range", "ne") if tier == "thorough" else ("ge", "isin"):
+        for N in ((2,) if tier == "quick" else (1, 2, 3)):
+            ts.append(Template(f"T1/Int64/{cname}/ina=1/N={N}", t_series, ("Int", cname, N, True, None), twin="verdict"))
     Nf = (2,) if tier == "quick" else (1, 2, 3)
     for N in Nf:
         for arr in ARRANGEMENTS:
